@@ -362,6 +362,10 @@ pub enum Strat {
     /// about to execute that step point (u16::MAX = until it has finished), then go on with the
     /// next entry; after the script, round-robin until everybody is done.
     Script,
+    /// Systematic schedule: `inner.segments` is a list of (thread, number of own step points): that
+    /// thread runs for that many step points (u64::MAX = until it has finished), then the next entry
+    /// takes over; afterwards the current thread keeps running and the others follow as it finishes.
+    Segments,
 }
 
 pub struct Inner {
@@ -394,6 +398,11 @@ pub struct Inner {
     pub script: Vec<(usize, u16)>,
     pub script_pos: usize,
     pub script_failed: bool,
+    pub segments: Vec<(usize, u64)>,
+    pub seg_pos: usize,
+    pub seg_left: u64,
+    pub seg_started: bool,
+    pub steps_by: [u64; MAXT],
 }
 
 pub struct Tok {
@@ -439,6 +448,11 @@ static TOK: Tok = Tok {
         script: Vec::new(),
         script_pos: 0,
         script_failed: false,
+        segments: Vec::new(),
+        seg_pos: 0,
+        seg_left: 0,
+        seg_started: false,
+        steps_by: [0; MAXT],
     }),
 };
 
@@ -489,6 +503,11 @@ pub fn token_prepare(n: usize, sched_seed: u64, strat: Strat, record: bool) {
     inn.script.clear();
     inn.script_pos = 0;
     inn.script_failed = false;
+    inn.segments.clear();
+    inn.seg_pos = 0;
+    inn.seg_left = 0;
+    inn.seg_started = false;
+    inn.steps_by = [0; MAXT];
     inn.changes.clear();
     for p in inn.prio.iter_mut() {
         *p = 0;
@@ -522,6 +541,7 @@ pub fn token_start() {
     let n = inn.nthreads;
     let first = match inn.strat {
         Strat::Pct { .. } => highest_prio(inn, NOT_WORKER).unwrap_or(0),
+        Strat::Segments => inn.segments.first().map(|x| x.0).unwrap_or(0),
         _ => inn.rng.below(n as u64) as usize,
     };
     TOK.cur.store(first, Release);
@@ -617,6 +637,7 @@ fn pick(inn: &mut Inner, me: usize, site: u16) -> usize {
     }
     match inn.strat {
         Strat::Script => script_pick(inn, me, site),
+        Strat::Segments => segments_pick(inn, me),
         Strat::Windows { p_in, p_out } => {
             let p = if window_site(site) { p_in } else { p_out };
             if inn.rng.below(16) < p as u64 {
@@ -670,6 +691,38 @@ fn pick(inn: &mut Inner, me: usize, site: u16) -> usize {
     }
 }
 
+/// Systematic schedule (see `Strat::Segments`). Called when `me` is about to execute a step point.
+fn segments_pick(inn: &mut Inner, me: usize) -> usize {
+    loop {
+        if inn.seg_pos >= inn.segments.len() {
+            return me;
+        }
+        let (t, n) = inn.segments[inn.seg_pos];
+        let st = TOK.status[t].load(Relaxed);
+        if st == ST_FINISHED || st == ST_ABSENT {
+            inn.seg_pos += 1;
+            inn.seg_started = false;
+            continue;
+        }
+        if !inn.seg_started {
+            inn.seg_started = true;
+            inn.seg_left = n;
+        }
+        if t != me {
+            return t;
+        }
+        if inn.seg_left == 0 {
+            inn.seg_pos += 1;
+            inn.seg_started = false;
+            continue;
+        }
+        if inn.seg_left != u64::MAX {
+            inn.seg_left -= 1;
+        }
+        return me;
+    }
+}
+
 /// Directed schedule (see `Strat::Script`).
 fn script_pick(inn: &mut Inner, me: usize, site: u16) -> usize {
     let mut reached_here = false;
@@ -712,6 +765,7 @@ fn token_step(site: u16) {
     PROGRESS.fetch_add(1, Relaxed);
     inn.trace_hash = mix(inn.trace_hash, ((me as u64) << 16) | site as u64);
     inn.last_site[me] = site;
+    inn.steps_by[me] += 1;
     if inn.record && inn.trace.len() < 20000 {
         inn.trace.push((me as u8, site));
     }
@@ -864,6 +918,13 @@ pub fn token_finish() {
                 _ => random_other(inn, me),
             }
         }
+        Strat::Segments => {
+            let want = inn.segments.get(inn.seg_pos).map(|x| x.0);
+            match want {
+                Some(t) if t != me && runnable(t) => Some(t),
+                _ => (0..inn.nthreads).find(|&t| t != me && runnable(t)),
+            }
+        }
         _ => random_other(inn, me),
     };
     let next = next.or_else(|| (0..inn.nthreads).find(|&t| t != me && TOK.status[t].load(Relaxed) == ST_BLOCKED));
@@ -899,6 +960,13 @@ pub fn cancel_freeze() {
             inn.solo = NOT_WORKER;
         }
     }
+}
+
+pub fn set_segments(segments: Vec<(usize, u64)>) {
+    let inn = unsafe { inner() };
+    inn.segments = segments;
+    inn.seg_pos = 0;
+    inn.seg_started = false;
 }
 
 pub fn set_script(script: Vec<(usize, u16)>) {
